@@ -251,7 +251,16 @@ def gen_c06(rng, tier):
             sport, dport = rng.u16(), rng.u16()
             f = w.tcp_frame(v6, sport, dport, rng.u32(), 0, 2)
             frames += [f, f]
-        cases.append(case(w, frames, ['syn-retransmit']))
+            # the same source endpoint sweeping destinations / ports, back to back (one field changes at a time)
+            s, d = w.addrs(v6)
+            d2 = w.my6b if v6 else w.my4b
+            s2 = bytes([s[0] ^ 1]) + s[1:]
+            mk = lambda ss, dd, sp, dp: eth(w.mac, w.cl_mac, 0x86dd if v6 else 0x0800,
+                                            (ipv6(ss, dd, 6, lib.tcp(sp, dp, 7, 0, 2, src=ss, dst=dd)) if v6 else
+                                             ipv4(ss, dd, 6, lib.tcp(sp, dp, 7, 0, 2, src=ss, dst=dd))))
+            frames += [mk(s, d, sport, dport), mk(s, d2, sport, dport), mk(s, d, sport, dport), mk(s2, d, sport, dport),
+                       mk(s, d, sport ^ 1, dport), mk(s, d, sport, dport ^ 1), mk(s, d, sport, dport)]
+        cases.append(case(w, frames, ['syn-retransmit', 'syn-sweep']))
     return cases
 
 
@@ -458,6 +467,13 @@ def gen_c05(rng, tier):
                 frames.append(eth(rng.choice([BCAST, w.mac]), w.cl_mac, 0x0806,
                                   arp(op, w.cl_mac, w.cl4, rng.choice([bytes(6), rng.bytes(6)]), tpa,
                                       pad=rng.choice([b'', bytes(18), rng.bytes(rng.below(20))]))))
+        # senders: on the deny list, a handled address (gratuitous / probe), zero, the responder's own MAC as source
+        for spa in [w.bad4, w.my4, w.my4b, bytes(4), bytes([255] * 4)]:
+            for smac in [w.cl_mac, w.mac]:
+                frames.append(eth(BCAST, smac, 0x0806, arp(1, smac, spa, bytes(6), w.my4)))
+        for smac in [w.mac, BCAST, bytes(6)]:
+            frames.append(eth(w.mac, smac, 0x0800, ipv4(w.cl4, w.my4, 1, icmp(8, 0, b'abcdefgh'))))
+            frames.append(eth(w.mac, smac, 0x86dd, ipv6(w.cl6, w.my6, 58, icmp6(128, 0, b'abcdefgh', w.cl6, w.my6))))
         for _ in range(10):
             frames.append(eth(BCAST, w.cl_mac, 0x0806, arp(1, w.cl_mac, w.cl4, bytes(6), w.my4, htype=rng.choice([1, 6, 0]),
                                                             ptype=rng.choice([0x0800, 0x86dd]), hlen=rng.choice([6, 8]), plen=rng.choice([4, 16]))))
@@ -594,6 +610,7 @@ def gen_c10(rng, tier):
                  b'\x11\x22\x33\x44' + bytes(7) + b'\x02\x00\x01\x86\xa0' + bytes(4) + b'\x00\x00\x00\x03',
                  b'\x00\x00\x00\x2f\xffSMB', b'\x00\x00\x01\x00\xfeSMB']
     ops = []
+    aops = []
     n = 3000 if tier == 'quick' else 60000
     for _ in range(n):
         s = rng.choice(sig_seeds)
@@ -619,8 +636,12 @@ def gen_c10(rng, tier):
                     b[i] = rng.choice(list(b'GPHDCOTSh0\x00\x01\xff\xfe'))
             s = bytes(b) + rng.bytes(rng.below(6))
         ops.append(('S', 'proto', 0, rng.below(2), s))
+        if rng.chance(1, 3):
+            # the same string through proto::repl (datagram, or first segment of a fresh flow)
+            aops.append(app_op(rng, w, s, tcp=rng.chance(1, 2)))
     c = acase(w, ops, ['matcher'])
     cases.append(c)
+    cases.append(acase(w, aops, ['matcher-strings-through-repl']))
     # segmented TCP flows: junk / partial signature first, then (the rest of) a request, same flow
     ops = []
     for _ in range(400 if tier == 'quick' else 8000):
@@ -660,7 +681,7 @@ PROPS = {
                      'over all 2x2x3x6 configurations with real loggers attached and log arguments evaluated; non-trivial = distinct (frame, logger, level) '
                      'with an authorised destination MAC, i.e. processed beyond the Ethernet filter; judge: no PANIC',
                 trusted=['panics are observed through catch_unwind in the hook driver; aborts that are not panics (allocation failure, stack overflow) are outside the model']),
-    'C10': dict(gen=gen_c10, judge='C10', judge_mode='stream', proj=lambda r: r,
+    'C10': dict(gen=gen_c10, judge='C10', judge_mode='stream', proj=proj_app,
                 rule='matcher level: signature seeds truncated / extended / wildcard positions filled with bytes that are literals of other '
                      'signatures / mutated, one real search_next(+end) call each; application level: payload grammars of every protocol over UDP and '
                      'TCP, IPv4 and IPv6, random ports; non-trivial = payload whose reference identification is some signature (or, for replies, a '
@@ -1188,6 +1209,27 @@ def gen_streams(rng, tier):
     return [(k, s[:110]) for k, s in streams if len(s) >= 2]
 
 
+def gen_large_streams(rng, tier):
+    """HTTP requests with 8-12 KiB of headers and ONC-RPC/TCP calls with large credentials; each is complete
+    exactly at its last byte"""
+    out = []
+    for _ in range(2 if tier == 'quick' else 12):
+        target = rng.choice([8300, 9000, 12000, 8193 + rng.below(3000)])
+        h = rng.choice([b'GET', b'POST', b'PUT']) + b' / HTTP/1.1\r\n'
+        i = 0
+        while len(h) < target:
+            h += b'X-Hdr-%d: ' % i + bytes(0x61 + rng.below(26) for _ in range(20 + rng.below(300))) + b'\r\n'
+            i += 1
+        out.append(('http', h + b'\r\n'))
+        credlen = 4 * ((target - 60) // 4)
+        if credlen > 8 * 1024 - 4 and rng.chance(1, 2):
+            credlen = 4 * rng.choice([2047, 2048, 2049, 2100])
+        body = struct.pack('>IIIIII', rng.u32() | 0x01000000, 0, 2, 100000, rng.choice([2, 3, 4]), rng.choice([0, 3, 4])) + \
+            struct.pack('>II', 1, credlen) + rng.bytes(credlen) + struct.pack('>II', 0, 0)
+        out.append(('rpc', struct.pack('>I', 0x80000000 | len(body)) + body))
+    return out
+
+
 def explore_c11(prop, pd, tier, rng, corpus_cases):
     w = World(rng, selfmode=False, denymode=False, key=(0, 0))
     streams = gen_streams(rng, tier)
@@ -1228,6 +1270,24 @@ def explore_c11(prop, pd, tier, rng, corpus_cases):
             g['segs'].append(flow_case(s, cs, 'cuts%d' % len(cs)))
         groups.append(g)
         cases += [g['whole']] + g['prefixes'] + g['segs']
+    # large requests (complete exactly at their last byte): MSS-sized segments, cuts around power-of-two
+    # stream offsets, random k-cuts — per-flow byte counters and buffers show here, not in short streams
+    for kind, s in gen_large_streams(rng, tier):
+        g = {'stream': s, 'kind': kind, 'whole': flow_case(s, (), 'whole'), 'prefixes': [], 'segs': [], 'trigger': len(s)}
+        cutsets = []
+        for mss in (1460, 1448, 1220, 536, 4000):
+            cutsets.append(tuple(range(mss, len(s), mss)))
+        for b in (4096, 8192, 16384):
+            for d in (-1, 0, 1, 2):
+                if 0 < b + d < len(s):
+                    cutsets.append((b + d,))
+                    cutsets.append(tuple(sorted({max(1, (b + d) // 2), b + d})))
+        for _ in range(4 if tier == 'quick' else 40):
+            cutsets.append(tuple(sorted(set(1 + rng.below(len(s) - 1) for _ in range(2 + rng.below(8))))))
+        for cs in cutsets:
+            g['segs'].append(flow_case(s, cs, 'large-cuts%d' % len(cs)))
+        groups.append(g)
+        cases += [g['whole']] + g['segs']
     # signature length of each stream from the real matcher
     sigops = [('C', w.cfg())] + [('S', 'proto', 0, 0, g['stream']) for g in groups]
     sb, _, _, _ = run_impl(sigops)
@@ -1245,6 +1305,8 @@ def explore_c11(prop, pd, tier, rng, corpus_cases):
             if seg_kind(pc['impl'][-1])[0] == 'data':
                 trigger = n
                 break
+        if g.get('trigger') is not None and whole[0] == 'data':
+            trigger = g['trigger']
         for c in g['segs']:
             evaluations += 1
             obs = [seg_kind(b) for b in c['impl'][2:]]
